@@ -103,13 +103,16 @@ static void s_w_release(struct aws_allocator *a, void *p) {
 }
 
 static void *s_w_realloc(struct aws_allocator *a, void *p, size_t oldsize, size_t newsize) {
-    (void)oldsize;
     if (!p) {
         return s_w_acquire(a, newsize);
     }
     size_t id = s_find_block(p);
     HC_CHECK(id != NONE);
     size_t old = s_blk[id].size;
+    if (oldsize != old) {
+        /* an allocator without mem_realloc copies `oldsize` bytes: the library must state the block's true size */
+        printf("P MONITOR realloc oldsize=%zu but the block has %zu bytes\n", oldsize, old);
+    }
     void *n = s_w_acquire(a, newsize);
     if (!n) {
         return NULL;
